@@ -372,8 +372,12 @@ func visitInstr(fr *frame, instr ssa.Instruction) continuation {
 	case *ssa.MakeSlice:
 		capv := fr.intArg(fr.get(instr.Cap))
 		lenv := fr.intArg(fr.get(instr.Len))
-		if lenv < 0 || capv < lenv || capv > 1<<24 {
-			c.runtimeError(fr, fmt.Sprintf("runtime error: makeslice: len/cap out of range (%d,%d)", lenv, capv))
+		if lenv < 0 || capv > 1<<24 {
+			// (the wording of the Go runtime, so that a native replay is recognised)
+			c.runtimeError(fr, "runtime error: makeslice: len out of range")
+		}
+		if capv < lenv {
+			c.runtimeError(fr, "runtime error: makeslice: cap out of range")
 		}
 		slice := make([]value, capv)
 		tElt := instr.Type().Underlying().(*types.Slice).Elem()
